@@ -1,6 +1,6 @@
 (* C20 model: how the generated tables (Gen/Suites.v = tlslite-ng's suite lists and the
    values of its classification functions, regenerated from /repo on every run) are
-   read, a hand transcription of the key-exchange dispatch of tlsconnection.py, and the
+   read, what the ast-extracted key-exchange dispatch of tlsconnection.py must return, and the
    boolean checks that the theorems of Props/C20.v decide.  Definitions only. *)
 From Coq Require Import ZArith List Bool String.
 From TV Require Import Gen.Suites Spec.Iana.
@@ -19,7 +19,7 @@ Definition has_list (name : string) : bool :=
   match sassoc name suite_lists with Some _ => true | None => false end.
 
 (* ---- negotiability (the handshake's own filters, all-permissive settings) ---------- *)
-Definition creds : list string := ["srp"; "srp+cert"; "cert"; "anon"].
+Definition creds : list string := ["srp"; "srp+cert"; "cert"; "anon"; "psk"].
 Definition kinds : list string := ["srp"; "cert"; "anon"].
 
 Definition srv_may_select (cred : string) (s v : Z) : bool :=
@@ -146,7 +146,7 @@ Definition list_semantics : list (string * (meaning -> bool)) := [
   ("certAllSuites", fun m => (auth_code (m_auth m) =? auth_code AuRSA))].
 
 (* every list the library defines has a stated meaning, and conversely *)
-Definition semantics_cover : bool :=
+Definition semantics_cover_base : bool :=
   forallb (fun p => match sassoc (fst p) list_semantics with Some _ => true | None => false end) suite_lists
   && forallb (fun p => has_list (fst p)) list_semantics.
 
@@ -185,6 +185,10 @@ Definition kx_lists : list string :=
    "ecdhAnonSuites"; "srpSuites"; "srpCertSuites"; "tls13Suites"].
 Definition version_lists : list string := ["ssl3Suites"; "tls12Suites"; "tls13Suites"].
 
+(* ... and the lists named in the partition statements exist (nothing is read as an empty default) *)
+Definition semantics_cover : bool :=
+  semantics_cover_base && forallb has_list (cipher_lists ++ mac_lists ++ kx_lists ++ version_lists).
+
 Definition count_in (names : list string) (s : Z) : Z :=
   fold_left (fun acc n => if mem s (lists_of n) then acc + 1 else acc) names 0.
 Definition in_exactly_one (names : list string) (s : Z) : bool := count_in names s =? 1.
@@ -192,64 +196,35 @@ Definition chk_partition (s : Z) : bool :=
   in_exactly_one cipher_lists s && in_exactly_one mac_lists s && in_exactly_one kx_lists s
   && in_exactly_one version_lists s.
 
-(* ---- 7. key-exchange dispatch (hand transcription, tied by the live handshakes) ------------- *)
-Inductive kxclass := SrpKx | RsaKx | DheKx | EcdheKx | AdhKx | AecdhKx.
-Definition kxclass_code (k : kxclass) : Z :=
-  match k with SrpKx => 1 | RsaKx => 2 | DheKx => 3 | EcdheKx => 4 | AdhKx => 5 | AecdhKx => 6 end.
-Definition inl (name : string) (s : Z) : bool := mem s (lists_of name).
-
-(* tlsconnection.py _serverGetClientHello..., "Perform the SRP key exchange" onwards; None = assert(False) *)
-Definition srv_dispatch (s : Z) : option (kxclass * bool (* server certificate sent *)) :=
-  if inl "srpAllSuites" s then Some (SrpKx, inl "srpCertSuites" s)
-  else if inl "certSuites" s || inl "dheCertSuites" s || inl "dheDsaSuites" s || inl "ecdheCertSuites" s
-          || inl "ecdheEcdsaSuites" s then
-    if inl "certSuites" s then Some (RsaKx, true)
-    else if inl "dheCertSuites" s || inl "dheDsaSuites" s then Some (DheKx, true)
-    else Some (EcdheKx, true)
-  else if inl "anonSuites" s || inl "ecdhAnonSuites" s then
-    if inl "anonSuites" s then Some (AdhKx, false) else Some (AecdhKx, false)
-  else None.
-
-(* tlsconnection.py _handshakeClientAsyncHelper: SRP / DHE_RSAKeyExchange / ECDHE_RSAKeyExchange / RSAKeyExchange *)
-Definition cli_dispatch (s : Z) : kxclass :=
-  if inl "srpAllSuites" s then SrpKx
-  else if inl "dhAllSuites" s then DheKx
-  else if inl "ecdhAllSuites" s then EcdheKx
-  else RsaKx.
-
-(* what the name demands *)
-Definition expected_srv (m : meaning) : option (kxclass * bool) :=
+(* ---- 7. key-exchange dispatch ---------------------------------------------------------------
+   gen_srv_dispatch / gen_cli_dispatch are extracted from the ast of tlsconnection.py
+   (_handshakeServerAsyncHelper, _handshakeClientAsyncHelper): the name of the KeyExchange class
+   constructed (or of the helper coroutine run) for a suite; "ASSERT" = assert(False). *)
+Definition expected_srv_action (m : meaning) : option string :=
   match m_kx m, m_auth m with
-  | KxSRP, AuSRP => Some (SrpKx, false)
-  | KxSRP, AuRSA => Some (SrpKx, true)
-  | KxRSA, AuRSA => Some (RsaKx, true)
-  | KxDHE, AuAnon => Some (AdhKx, false)
-  | KxDHE, _ => Some (DheKx, true)
-  | KxECDHE, AuAnon => Some (AecdhKx, false)
-  | KxECDHE, _ => Some (EcdheKx, true)
+  | KxSRP, (AuSRP | AuRSA) => Some "_serverSRPKeyExchange"
+  | KxRSA, AuRSA => Some "RSAKeyExchange"
+  | KxDHE, AuAnon => Some "ADHKeyExchange"
+  | KxDHE, (AuRSA | AuDSS) => Some "DHE_RSAKeyExchange"      (* the class does signed FFDHE for any key type *)
+  | KxECDHE, AuAnon => Some "AECDHKeyExchange"
+  | KxECDHE, (AuRSA | AuECDSA) => Some "ECDHE_RSAKeyExchange"
   | _, _ => None
   end.
-Definition expected_cli (m : meaning) : option kxclass :=
+Definition expected_cli_action (m : meaning) : option string :=
   match m_kx m with
-  | KxSRP => Some SrpKx | KxRSA => Some RsaKx | KxDHE => Some DheKx | KxECDHE => Some EcdheKx
+  | KxSRP => Some "SRPKeyExchange" | KxRSA => Some "RSAKeyExchange"
+  | KxDHE => Some "DHE_RSAKeyExchange" | KxECDHE => Some "ECDHE_RSAKeyExchange"
   | _ => None
-  end.
-Definition okx_eqb (a b : option (kxclass * bool)) : bool :=
-  match a, b with
-  | Some (x, c), Some (y, d) => (kxclass_code x =? kxclass_code y) && Bool.eqb c d
-  | None, None => true
-  | _, _ => false
   end.
 (* versions <= TLS 1.2 only: TLS 1.3 has one key exchange for all suites *)
 Definition chk_dispatch (s : Z) : bool :=
   match meaning_of s with
   | Some m =>
       if kx_is KxTLS13 m then true else
-      okx_eqb (srv_dispatch s) (expected_srv m)
-      && match expected_cli m with
-         | Some k => kxclass_code (cli_dispatch s) =? kxclass_code k
-         | None => false
-         end
+      match expected_srv_action m, expected_cli_action m with
+      | Some a, Some b => String.eqb (gen_srv_dispatch s) a && String.eqb (gen_cli_dispatch s) b
+      | _, _ => false
+      end
   | None => false
   end.
 
